@@ -4,14 +4,23 @@ from .common import TRUSTED, ASSUMPTIONS, default_nontrivial
 
 LEVEL = "proof"
 THEOREMS = ["C09_projection", "C09_projection_dist", "C09_max_lift", "C09_max_u_ge", "C09_max_u_formula",
-            "C09_max_keeps_projection", "C09_max_wf", "C09_zero_mass", "C09_idempotent"]
+            "C09_max_keeps_projection", "C09_max_wf", "C09_zero_mass", "C09_idempotent",
+            "C09_maximized_sums_to_one", "C09_maximized_sums_to_one_of_card", "C09_maximized_sums_to_one_of_sum_lt_two",
+            "C09_maximized_gen_lift"]
 EXTRA_MODULES = [("SLV.Props.OracleSpec", ("OS_projQ", "OS_maxUQ"))]
 RULE = ("ops proj/maxu/umax on well-formed opinions: random dyadic grids (1/4..1/64) with zero base rates, "
         "vacuous/dogmatic/zero-mass opinions, arbitrary floats; n=1..4; "
         "families A/M/D/N, styles o/r/s, f32+f64; the same opinions over 2-D / 3-D domains (families M2/M3/D2/D3/N2/N3 = "
         "MArr2/MArr3/MArrD2/MArrD3 with usize and newtype indices, shapes 1x2 .. 2x2x3, operands built with `new`, results read cell "
-        "by cell through the index operator and compared with an independently built container). non-trivial = implementation "
-        "returned a value and the case line is distinct")
+        "by cell through the index operator and compared with an independently built container). umax with the variant token acc (the "
+        "harness also asks the crate's own checked constructors): base rates summing to exactly 1+k*eps for k=-2..4 (the band "
+        "check_base_rate accepts; k=-3, 5 as rejected controls) under the vacuous simplex for every k and n=1..4, the witness "
+        "a=[1/2, 1/2+3eps], random exact dyadic simplexes (vacuous, u=1-1/den, interior) over the 1-D and the 2-D / 3-D families up to "
+        "8 cells, and non-dyadic normalised 4-cell base rates (1-D and 2x2; float sums of 1+2eps occur naturally): whenever "
+        "Opinion::try_new accepts the operand, Simplex::try_new must accept the maximised simplex (clause "
+        "C09.maximized_accepted_by_constructor, claimed for at most 8 cells: for 12 cells the re-summed normalised masses miss the "
+        "4-ulp band by plain rounding, sum = 1-2.5eps, in 20-60 cases per million; 8 cells about 2 per million; fewer cells none in "
+        "2 million). non-trivial = implementation returned a value and the case line is distinct")
 EXHAUSTIVE = {}
 nontrivial = default_nontrivial
 
@@ -76,6 +85,10 @@ def cases(rng, tier):
             op = rng.choice(["proj", "proj", "maxu", "umax"])
             var = fam + "." + (rng.choice(["o", "r", "o.s"]) if op == "proj" else "o")
             out.append(G.line(op, fmt, var, [n] + sh, w))
+    # base rates whose float sum is 1 + k*eps (the band the checked constructors accept); variant token `acc`: the crate's own
+    # constructors judge the operand and the maximised simplex (repair f029db5: uncertainty_maximized renormalises)
+    for fmt in ("f64", "f32"):
+        out += G.band_umax_cases(rng, fmt, (300 if tier == "quick" else 6000) // 2)
     return out
 
 
@@ -85,10 +98,11 @@ def search(rng, ops, broken):
 from .common import LEVEL_NOTE, TECHNIQUE  # noqa: E402
 LEVEL_TEXT = ("Kernel-checked theorems for every domain size and every rational well-formed opinion: the model's projection is "
               "b+a*u (a distribution), uncertainty_maximized returns a well-formed simplex with the same projection, u'>=u, "
-              "u' = min(1, min_{a>eps} P/a), a zero mass unless vacuous, idempotent. The model is tied to the code by running "
+              "u' = min(1, min_{a>eps} P/a), a zero mass unless vacuous, idempotent; for ANY non-negative simplex / base rate whose projection exists "
+              "(no condition on sum(a)) the maximised simplex sums to exactly 1 (false before repair f029db5). The model is tied to the code by running "
               "proj/maxu/umax of the real crate in all container families and both precisions against the exact model, and the "
               "theorem predicates are evaluated on the implementation's outputs.")
 
 
 # tie theorems (substrings of SLV.Gen.*Tie theorem names) this property's operators depend on
-TIE = ['OpinionRef_projection', 'Simplex_projection', 'normalize_prob_dist', 'max_uncertainty', 'uncertainty_maximized', 'gen_is_in_range_eq', 'gen_in_unit_interval_eq', 'gen_is_one_eq', 'gen_is_zero_eq', 'gen_check_unit_interval_eq', 'gen_check_is_one_eq']
+TIE = ['OpinionRef_projection', 'Simplex_projection', 'normalize_prob_dist', 'max_uncertainty', 'uncertainty_maximized', 'Simplex_normalized', 'gen_is_in_range_eq', 'gen_in_unit_interval_eq', 'gen_is_one_eq', 'gen_is_zero_eq', 'gen_check_unit_interval_eq', 'gen_check_is_one_eq']
